@@ -343,6 +343,8 @@ def check_current(ctx):
 
 
 def check(ctx):
+    from . import c19 as _c19
+    _c19.check_descriptor(ctx)     # repair installs its MANIFEST-000001 so that CURRENT names an existing file
     check_edit_numbers(ctx)
     from . import c14
     c14.check_level_loops(ctx)     # the MANIFEST snapshot covers every level
